@@ -31,6 +31,18 @@ def enabledS : List (Option Str × Bool) → Option Str → Bool
   | [], _ => true
   | c :: rest, M => if relevant c.1 M then c.2 else enabledS rest M
 
+/-- closest-parent rule, declaratively: `k ↦ v` decides for `M` when `k` names `M` or one of its parent
+packages, has an entry, and no longer such name has one -/
+def ClosestEntry (tbl : List (Option Str × Option Int)) (M k : Str) (v : Option Int) : Prop :=
+  tbl.lookup (some k) = some v ∧ pkgParent k M = true ∧
+  ∀ k', pkgParent k' M = true → (tbl.lookup (some k')).isSome = true → k'.length ≤ k.length
+
+/-- what a table entry decides: `False` rejects, a number is a minimum severity -/
+def entryDecides (v : Option Int) (no : Int) : Bool :=
+  match v with
+  | none => false
+  | some lv => decide (lv ≤ no)
+
 def levelNoS (levels : List (Str × Int)) : LevelArg → Except Err Int
   | .bad => .error .typeError
   | .name s => getLevel levels s
